@@ -1,4 +1,34 @@
 CFG = dict(
     id="C12", props="Props/C12.v", harness="c12", shims=["c2--c12.go", "data--c12.go", "device--c12.go"], tags="verif",
-    trusted_base=[], assumptions=[], level_text="in progress", level_note="in progress",
+    trusted_base=[
+        "Model/Codec.v + Proofs/Codec.v (shared, C10): the typed codec primitives enc_*/rd_*/srd_* and their round-trip / "
+        "stream-agreement lemmas; C12 instantiates its readers with exactly these primitives",
+        "the stream model: an io.Reader is the list of chunks its successive Read calls return, each call returns at least one byte "
+        "(no (0, nil) reads) and EOF arrives alone, not together with the last bytes; io.ReadFull and data.NewReader are modelled on top of it",
+        "harness shims (c2--c12.go, data--c12.go, device--c12.go): Sessions built without a network (client: no parent; server side: a bare "
+        "Listener and a job table), unexported settings/keys/proxy fields set and read directly, a stub Profile that only marshals; "
+        "writeDeviceInfo / readDeviceInfo / defaultClientMux / Session.handle are the real functions",
+        "time.Time is modelled as (Unix seconds, nanoseconds) with IsZero = (-62135596800, 0); time.Unix(v, 0) and Time.Unix() are trusted to be inverse on int64 seconds",
+        "Proxy.IsActive, Session.IsClient/IsActive are modelled as two booleans; the profile's MarshalBinary as an opaque byte string",
+    ],
+    assumptions=[
+        "sender settings are arbitrary values of their Go types (jitter uint8, sleep int64, kill date any time.Time, work hours any five bytes or nil); "
+        "device details: strings up to MaxSlice bytes, at most 255 interfaces and 255 addresses per interface (the counts are one byte on the wire), "
+        "a device ID / session ID whose first byte is not zero (ID.Read refuses the empty ID)",
+        "hello, migrate, refresh and proxy messages are written by an ACTIVE CLIENT session (writeProxyData writes nothing at all otherwise, while the reader always expects the count byte)",
+        "'unchanged' is stated at the wire's resolution: the kill date in whole seconds with the zero Time and Unix second 0 both meaning none; an Empty() work-hours value and nil both mean none; "
+        "for settings already of that form (all a session can hold after any synchronisation) the four values are proved identical",
+        "SetDuration transmits the server's resulting jitter AND sleep (not its arguments): 'takes effect = apply_order' is proved for it under the hypothesis that the two views agreed on "
+        "jitter and sleep before and the jitter is a percentage; exact application of in-domain values (jitter 0..100, sleep > 0) is proved without that hypothesis",
+    ],
+    level_text="25 theorems over the Gallina model of writeDeviceInfo/readDeviceInfo (six kinds), the Machine/Network/Address/WorkHours/KeyPair codecs, the server setters "
+               "SetDuration/SetKillDate/SetWorkHours and task.Duration/KillDate/WorkHours, the client MvTime handler and handleInfoResult, for ALL setting values: every kind written by the "
+               "writer's field list is read back by the reader's field list (two separate Go functions) from a packet and from a stream over EVERY split into non-empty short reads, leaving "
+               "exactly the trailing bytes; the stream reader equals the packet reader on every input; settings/identity/key material arrive field by field (kill date at one-second resolution); "
+               "an ordered change makes the client apply_order(client, order) with the clamps spelled out, in-domain values are applied exactly, the exchange completes, and after the echo the "
+               "server's view equals the client's. The model is tied to /repo on every run: ~3 400 (quick) generated sessions/orders over the boundary grid go through the real functions "
+               "(bytes, receiver state, proxy list, unread remainder; payload, client and server state) and through the model inside Coq.",
+    level_note="Proof is about the model; the tie to the code is differential (strength = the generator's, distribution in the evidence). Two defects found this way are repaired in /repo "
+               "(KeyPair.Unmarshal short reads: 793ff50; task.Duration jitter clamp: ab1cb28); the theorem C12_keypair_single_read_refuted keeps the old reader's failure. "
+               "Trusted: Coq kernel+vm_compute, the shared codec model, the stream model (no empty reads), the harness shims. No axioms.",
 )
